@@ -488,6 +488,62 @@ def run(ctx):
                 attack(rec, t, "inject:%s@%s" % (name, pos), expect_reject=None,
                        coq=(name in ("zip", "enc") or inj_n % 3 == 0 or not ctx.quick))
 
+    # ------------------------------------------------------------------ NEAR keys for every algorithm that takes an oct key
+    # the key material is the octets GIVEN (raw bytes, str or JWK dict): K||extra, K truncated, white space / NUL before or
+    # after, one bit flipped, the base64url text of K - decrypt must fail unless the octets are equal
+    from joserfc.jwk import OctKey
+    secret = b"correct-horse-battery-staple/0123456789abcdefghijklmnopqrstuvwxyzABCDEFGH"
+    near_algs = [("dir", "A128GCM", 16), ("dir", "A128CBC-HS256", 32), ("A128KW", "A128GCM", 16), ("A256KW", "A128CBC-HS256", 32),
+                 ("A192GCMKW", "A256GCM", 24), ("PBES2-HS256+A128KW", "A128GCM", 20), ("PBES2-HS512+A256KW", "A256GCM", 9)]
+    for ni, (alg, enc, klen) in enumerate(near_algs if not ctx.quick else near_algs[:2] + near_algs[2::2] + near_algs[5:6]):
+        S = secret[ni:ni + klen]
+        good = OctKey.import_key(S)
+        for ser in (("compact", "flat") if not ctx.quick else ("compact",) if ni % 2 else ("flat",)):
+            spec = J.make_spec(K, rng, ser, [alg], enc, plaintext=b"near keys %d" % ni)
+            spec["recips"] = [(h, good) for h, _ in spec["recips"]]
+            obs, info = J.encrypt_spec(spec)
+            if obs[0] != "ok":
+                ctx.violation({"kind": "encrypt-failed", "algs": alg, "enc": enc}, "encrypt with a text secret failed: %s" % obs[1], {"label": alg})
+                continue
+            tok = J.token_of(obs)
+            flipped = bytes([S[0] ^ 1]) + S[1:]
+            variants = [("same", S), ("plus-1", S + b"x"), ("plus-8", S + b"12345678"), ("plus-16", S + S[:16].ljust(16, b"p")),
+                        ("minus-1", S[:-1]), ("minus-first", S[1:]), ("lead-space", b" " + S), ("lead-newline", b"\n" + S),
+                        ("lead-tab", b"\t" + S), ("trail-space", S + b" "), ("trail-newline", S + b"\n"), ("lead-nul", b"\x00" + S),
+                        ("trail-nul", S + b"\x00"), ("bit-flip", flipped), ("base64url-text", J.b64e(S).encode("ascii"))]
+            for vname, V in variants:
+                for route in ("bytes", "str", "jwk"):
+                    if ctx.quick and route == "str" and vname in ("plus-8", "plus-16", "minus-first", "trail-newline"):
+                        continue
+                    try:
+                        if route == "bytes":
+                            kv = OctKey.import_key(V)
+                        elif route == "str":
+                            kv = OctKey.import_key(V.decode("ascii"))
+                        else:
+                            kv = OctKey.import_key({"kty": "oct", "k": J.b64e(V)})
+                    except Exception:  # noqa: a refused import is a rejection
+                        bump("near-key-import-refused")
+                        continue
+                    o2, (nlog, nnd) = J.do_decrypt(J.dec_ser(ser), tok, [kv])
+                    lab = "near-key:%s/%s:%s/%s/%s" % (vname, route, alg, enc, ser)
+                    ctx.note_case(("near-key", lab))
+                    bump("near-key")
+                    # HMAC pads its key with zero octets: a PBES2 password with trailing NULs IS the same PBKDF2 input
+                    hmac_equiv = alg.startswith("PBES2") and V.rstrip(b"\x00") == S.rstrip(b"\x00")
+                    rp = {"ser": ser, "token": tok, "given_octets_hex": V.hex(), "right_octets_hex": S.hex(), "route": route,
+                          "alg": alg, "expect": "reject" if V != S else b"".hex()}
+                    if V != S and not hmac_equiv and o2[0] == "ok":
+                        ctx.violation({"kind": "near-key-accepted", "variant": vname, "route": route, "alg": alg},
+                                      "decrypt returned plaintext with a key whose octets differ from the encryption key (%s)" % lab, rp)
+                    if V == S and (o2[0] != "ok" or o2[1] != spec["plaintext"]):
+                        ctx.violation({"kind": "same-key-rejected", "route": route, "alg": alg},
+                                      "the same key octets given as %s do not decrypt (%s): %s" % (route, lab, o2[1]), rp)
+                    if not nnd and J.table_chars(nlog) < 40000 and (not ctx.quick or route != "str" or vname in ("same", "lead-space", "plus-1")):
+                        cases.append(J.case_dec(J.dec_ser(ser), tok, [kv], None, True, o2, nlog)); meta.append(("near-key", lab))
+                        # the model is given the octets that were HANDED IN, not what the key object kept of them
+                        cases[-1] = cases[-1].replace(J.c_key(kv), "(mk_key %s %s true %s)" % (J.c_str("oct"), J.c_str(""), J.c_hex(V)), 1)
+
     # ------------------------------------------------------------------ registry selection x multi-recipient faults
     # every way of selecting the registry (none / algorithms= / registry= True|False / both); the caller opted into
     # any-recipient validation ONLY by passing its own registry with verify_all_recipients=False
